@@ -1,5 +1,5 @@
 // Correspondence harness for C17 (grid evaluation) and for the array kernels of splineutil.c.
-// usage: c17_harness <ncases> <cases> <impl> <stats> [tier]
+// usage: c17_harness <ncases> <cases> <impl> <stats> [tier]     (also writes <stats>.conc: result of the concurrent phase, JSON)
 // Lines written to <cases> (read by `psvdriver C17`), one result line each in <impl>:
 //   B order nknots knotbits{nknots} npts xbits{npts}            bsplinebasis(), dense, bit patterns (column-major as stored)
 //   S ndim ranges{ndim} nent (idx{ndim} val)*nent dim nrow ncol b{nrow*ncol row-major}   slicemultiply() on small integers (exact in double)
@@ -8,6 +8,12 @@
 //   G ndim (order nknots stride knotbits{nknots})*ndim ncoef coefbits32{ncoef} (npts xbits{npts})*ndim
 //        grideval through the C++ entry point and the C wrapper + pointwise ndsplineeval at every grid point
 #include "common.h"
+#include <atomic>
+#include <mutex>
+#include <thread>
+#include <signal.h>
+#include <sys/wait.h>
+#include <unistd.h>
 extern "C" {
 #include <photospline/detail/splineutil.h>
 }
@@ -171,6 +177,112 @@ static void emit_slice_wide(Rng& r, cholmod_common* c) {
   ndsparse_free(&a);
 }
 
+// ---- concurrent phase -------------------------------------------------------------------------------------------
+// A handful of the generated tables/grids (already evaluated on one thread, result kept in canonical form) are
+// evaluated again by several threads at the same time, through the C++ member and the C entry point, on the shared
+// const tables; every result must be the single-threaded one bit for bit (the model of grideval is a pure function of
+// table and grid: its result cannot depend on other calls in flight).  Runs in a forked child with an alarm, so that
+// a crash or hang is a result (with the tables/grids as replay) and not the end of the run.
+struct ConcCase {
+  std::unique_ptr<Table> t;
+  std::vector<std::vector<double>> coords;
+  std::string expect;     // print_nd of the single-threaded result
+  long pos0, pos1;        // byte range of the case line in <cases>
+};
+static std::vector<ConcCase> conc_cases;
+static const size_t CONC_MAX_CASES = 8;
+
+static std::string nd_string(const ::ndsparse* nd) {
+  char* p = nullptr; size_t l = 0; FILE* m = open_memstream(&p, &l); print_nd(m, nd); fclose(m);
+  std::string out(p, l); free(p); return out;
+}
+
+static std::string json_escape(const std::string& in) {
+  std::string o; for (char ch : in) { if (ch == '"' || ch == '\\') { o += '\\'; o += ch; } else if (ch == '\n') o += ' '; else o += ch; } return o;
+}
+
+static std::string case_line(const char* cases_path, const ConcCase& cc) {
+  std::string out; FILE* f = fopen(cases_path, "r"); if (!f) return out;
+  fseek(f, cc.pos0, SEEK_SET); out.resize(cc.pos1 - cc.pos0);
+  size_t got = fread(&out[0], 1, out.size(), f); out.resize(got); fclose(f);
+  while (!out.empty() && out.back() == '\n') out.pop_back();
+  return out;
+}
+
+// returns JSON text for <stats>.conc
+static std::string concurrent_phase(const char* cases_path, const std::string& tier) {
+  const int nthreads = 6;
+  const int per_thread = tier == "thorough" ? 400 : 60;
+  std::ostringstream js;
+  js << "{\"threads\": " << nthreads << ", \"calls\": " << nthreads * per_thread << ", \"tables\": " << conc_cases.size();
+  if (conc_cases.empty()) { js << ", \"status\": \"no-cases\"}"; return js.str(); }
+  std::string res_path = std::string(cases_path) + ".conc.child";
+  remove(res_path.c_str());
+  fflush(nullptr);
+  pid_t pid = fork();
+  if (pid == 0) {
+    alarm(tier == "thorough" ? 240 : 90);
+    std::mutex mu; std::vector<std::string> mism; std::atomic<long> done(0), bad(0);
+    std::atomic<int> gate(0);
+    auto work = [&](int tid) {
+      gate++; while (gate.load() < nthreads) std::this_thread::yield();      // start together
+      for (int it = 0; it < per_thread; it++) {
+        size_t ci = (size_t)(it * 5 + tid * 3) % conc_cases.size();
+        const ConcCase& cc = conc_cases[ci];
+        bool cxx = ((it + tid) & 1) == 0;
+        std::string got;
+        try {
+          if (cxx) {
+            std::unique_ptr<photospline::ndsparse> res = static_cast<const Table&>(*cc.t).grideval(cc.coords);
+            got = res ? nd_string(res.get()) : "null";
+          } else {
+            struct splinetable ct; ct.data = cc.t.get();
+            size_t nd = cc.coords.size();
+            std::vector<const double*> cp(nd); std::vector<uint32_t> ncs(nd);
+            for (size_t d = 0; d < nd; d++) { cp[d] = cc.coords[d].data(); ncs[d] = cc.coords[d].size(); }
+            ::ndsparse* raw = nullptr;
+            int rc = splinetable_grideval(&ct, cp.data(), ncs.data(), &raw);
+            std::unique_ptr<photospline::ndsparse> own(static_cast<photospline::ndsparse*>(raw));
+            got = (rc == 0 && raw) ? nd_string(raw) : "rc=" + std::to_string(rc);
+          }
+        } catch (std::exception& e) { got = std::string("throw ") + e.what(); }
+        done++;
+        if (got != cc.expect) {
+          bad++;
+          std::lock_guard<std::mutex> lk(mu);
+          if (mism.size() < 4) {
+            std::ostringstream m;
+            m << "{\"table\": " << ci << ", \"thread\": " << tid << ", \"call\": " << it << ", \"entry\": \"" << (cxx ? "splinetable::grideval" : "splinetable_grideval")
+              << "\", \"got\": \"" << json_escape(got.substr(0, 600)) << "\", \"single_threaded\": \"" << json_escape(cc.expect.substr(0, 600)) << "\"}";
+            mism.push_back(m.str());
+          }
+        }
+      }
+    };
+    std::vector<std::thread> th;
+    for (int i = 0; i < nthreads; i++) th.emplace_back(work, i);
+    for (auto& t : th) t.join();
+    FILE* f = fopen(res_path.c_str(), "w");
+    fprintf(f, "\"calls_done\": %ld, \"calls_differing\": %ld, \"mismatches\": [", done.load(), bad.load());
+    for (size_t i = 0; i < mism.size(); i++) fprintf(f, "%s%s", i ? ", " : "", mism[i].c_str());
+    fprintf(f, "]");
+    fclose(f);
+    fflush(nullptr);
+    _exit(0);
+  }
+  int st = 0; waitpid(pid, &st, 0);
+  std::string child;
+  { FILE* f = fopen(res_path.c_str(), "r"); if (f) { char buf[8192]; size_t n; while ((n = fread(buf, 1, sizeof buf, f)) > 0) child.append(buf, n); fclose(f); } }
+  remove(res_path.c_str());
+  if (WIFEXITED(st) && WEXITSTATUS(st) == 0 && !child.empty()) js << ", \"status\": \"completed\", " << child;
+  else if (WIFSIGNALED(st)) js << ", \"status\": \"" << (WTERMSIG(st) == SIGALRM ? "hang" : "crash") << "\", \"signal\": " << WTERMSIG(st);
+  else js << ", \"status\": \"crash\", \"exit_code\": " << (WIFEXITED(st) ? WEXITSTATUS(st) : -1);
+  js << ", \"case_lines\": [";
+  for (size_t i = 0; i < conc_cases.size(); i++) js << (i ? ", " : "") << "\"" << json_escape(case_line(cases_path, conc_cases[i])) << "\"";
+  js << "]}";
+  return js.str();
+}
+
 static void emit_grid(Rng& r, const std::string& tier) {
   int w = r.range(0, 99);
   int nd = w < 30 ? 1 : w < 60 ? 2 : w < 85 ? 3 : 4;
@@ -237,8 +349,10 @@ static void emit_grid(Rng& r, const std::string& tier) {
     }
     if (r.coin(1, 3)) std::sort(coords[d].begin(), coords[d].end());
   }
-  Table t;
+  std::unique_ptr<Table> tp(new Table);
+  Table& t = *tp;
   build_table(t, ord, kn, coef);
+  long pos0 = ftell(fc);
   fprintf(fc, "G %d", nd);
   for (int d = 0; d < nd; d++) {
     fprintf(fc, " %u %zu %llu", ord[d], kn[d].size(), (unsigned long long)t.strides[d]);
@@ -252,6 +366,7 @@ static void emit_grid(Rng& r, const std::string& tier) {
   }
   fprintf(fc, "\n");
   fflush(fc);
+  long pos1 = ftell(fc);
   // C++ entry point
   std::unique_ptr<photospline::ndsparse> res;
   std::string err;
@@ -301,6 +416,12 @@ static void emit_grid(Rng& r, const std::string& tier) {
     if (d < 0) done = true;
   }
   fprintf(fi, "\n");
+  // keep some non-trivial cases (result lists something, at least 2 dimensions preferred) for the concurrent phase
+  if (res && res->rows > 0 && conc_cases.size() < CONC_MAX_CASES && (nd >= 2 || conc_cases.size() % 4 == 3)) {
+    ConcCase cc; cc.expect = nd_string(res.get()); cc.coords = coords; cc.pos0 = pos0; cc.pos1 = pos1; cc.t = std::move(tp);
+    conc_cases.push_back(std::move(cc));
+    stats["G_kept_for_concurrent_phase"]++;
+  }
 }
 
 int main(int argc, char** argv) {
@@ -319,6 +440,11 @@ int main(int argc, char** argv) {
   }
   cholmod_l_finish(&c);
   fclose(fc); fclose(fi);
+  {
+    std::string cj = concurrent_phase(argv[2], tier);
+    FILE* fq = fopen((std::string(argv[4]) + ".conc").c_str(), "w");
+    fprintf(fq, "%s\n", cj.c_str()); fclose(fq);
+  }
   FILE* fs = fopen(argv[4], "w");
   fprintf(fs, "{");
   bool first = true;
